@@ -122,6 +122,23 @@ def check_call(rep, fff, which, text, kind, expform, source):
                 exp = conv(canonical(text, expform))
                 if not (obs == "value" and same(val, exp)):
                     key, clause = "fortran-rendering:" + (expform or "int"), "fortran_meaning"
+    if not key and obs != "raised":
+        # the readers are functions of (text, blank value) only: a second caller with another
+        # blank value (and the library's own fortran_read_* partials, blank value None) must get
+        # its own blank value for a blank field, and the same value otherwise - whatever was read before
+        alt = -7.5 if which == "float" else -7
+        rd = fff.fortran_read_float if which == "float" else fff.fortran_read_int
+        try:
+            v2, v3, v4 = fn(text, alt), rd(text), fn(text, SENT)
+        except BaseException as e:
+            v2 = v3 = v4 = None
+            key, clause = "raises", "never_raises"
+        else:
+            if obs == "blank":
+                if not (v2 == alt and type(v2) == type(alt) and v3 is None and v4 is SENT):
+                    key, clause = "blank-field:other-caller", "blank_gives_blank_value"
+            elif not (same(v2, val) and same(v3, val) and same(v4, val)):
+                key, clause = "result-depends-on-caller", "same_result_for_every_caller"
     if key:
         rep.violation("%s:%s" % (which, key), clause,
                       {"function": "fortran_" + which, "text": text, "observed": [obs, repr(val)],
